@@ -25,12 +25,14 @@ type Config struct {
 	MaxPaths        int
 	MaxConcretize   int
 	FeasTimeoutMs   int
+	IncTimeoutMs    int
 	AssertTimeoutMs int
 	WallBudget      time.Duration
 	Params          map[string]int
 	Solver          SolverKind
 	Witnesses       int
 	StopOnViolation bool
+	Progress        bool
 }
 
 type Engine struct {
@@ -50,6 +52,8 @@ type Engine struct {
 	evalMismatch int
 	witnessed    map[string]bool
 	nWitness     int
+	nDump        int
+	aux          map[*Solver]*Solver
 }
 
 func (e *Engine) noteInitProblem(pkg, msg string) {
@@ -247,7 +251,7 @@ type RunResult struct {
 	Forks        int
 	Decisions    int
 	Steps        int64
-	QFeas, QAssert, QSat, QUnsat, QUnknown, CacheHits int
+	QFeas, QAssert, QSat, QUnsat, QUnknown, CacheHits, SynHits, OneShot int
 	SolverTime   time.Duration
 	Wall         time.Duration
 	Funcs        map[*ssa.Function]bool
@@ -278,6 +282,23 @@ func (e *Engine) explore(entry *ssa.Function, expectBlock bool) *RunResult {
 	}
 	var wg sync.WaitGroup
 	var solverTime time.Duration
+	doneCh := make(chan struct{})
+	if e.cfg.Progress {
+		go func() {
+			tk := time.NewTicker(10 * time.Second)
+			defer tk.Stop()
+			for {
+				select {
+				case <-doneCh:
+					return
+				case <-tk.C:
+					mu.Lock()
+					fmt.Fprintf(os.Stderr, "  [%s %.0fs] paths=%d completed=%d queue=%d inflight=%d viol=%d incon=%d\n", rr.Entry, time.Since(t0).Seconds(), rr.Paths, rr.Completed, len(queue), inflight, len(rr.Violations), len(rr.Inconclusive))
+					mu.Unlock()
+				}
+			}
+		}()
+	}
 	for w := 0; w < e.cfg.Workers; w++ {
 		wg.Add(1)
 		go func(w int) {
@@ -291,7 +312,18 @@ func (e *Engine) explore(entry *ssa.Function, expectBlock bool) *RunResult {
 				mu.Unlock()
 				return
 			}
+			if d := os.Getenv("VX_SMTLOG"); d != "" {
+				f, _ := os.Create(fmt.Sprintf("%s/w%d.smt2", d, w))
+				sol.log = f
+				defer f.Close()
+			}
 			defer func() {
+				if a := e.peekAux(sol); a != nil {
+					mu.Lock()
+					solverTime += a.Time
+					mu.Unlock()
+					e.dropAux(sol)
+				}
 				mu.Lock()
 				solverTime += sol.Time
 				mu.Unlock()
@@ -345,6 +377,8 @@ func (e *Engine) explore(entry *ssa.Function, expectBlock bool) *RunResult {
 				rr.QUnsat += res.QUnsat
 				rr.QUnknown += res.QUnknown
 				rr.CacheHits += res.CacheHits
+				rr.SynHits += res.SynHits
+				rr.OneShot += res.OneShot
 				if res.NDecisions > rr.MaxDepthSeen {
 					rr.MaxDepthSeen = res.NDecisions
 				}
@@ -413,6 +447,7 @@ func (e *Engine) explore(entry *ssa.Function, expectBlock bool) *RunResult {
 		}(w)
 	}
 	wg.Wait()
+	close(doneCh)
 	rr.SolverTime = solverTime
 	rr.Wall = time.Since(t0)
 	if e.evalMismatch > 0 {
@@ -461,4 +496,37 @@ func (e *Engine) funcList(fs map[*ssa.Function]bool) []string {
 	}
 	sort.Strings(out)
 	return out
+}
+
+func (e *Engine) auxSolver(main *Solver) *Solver {
+	e.mu.Lock()
+	defer e.mu.Unlock()
+	if e.aux == nil {
+		e.aux = map[*Solver]*Solver{}
+	}
+	if a, ok := e.aux[main]; ok && !a.dead {
+		return a
+	}
+	a, err := NewSolver(e.cfg.Solver, e.cfg.FeasTimeoutMs)
+	if err != nil {
+		return nil
+	}
+	e.aux[main] = a
+	return a
+}
+
+func (e *Engine) peekAux(main *Solver) *Solver {
+	e.mu.Lock()
+	defer e.mu.Unlock()
+	return e.aux[main]
+}
+
+func (e *Engine) dropAux(main *Solver) {
+	e.mu.Lock()
+	a := e.aux[main]
+	delete(e.aux, main)
+	e.mu.Unlock()
+	if a != nil {
+		a.Close()
+	}
 }
